@@ -384,5 +384,71 @@ theorem linkedResults_rename (mi : ModelItems) (g : Group) (f : String → Strin
         intro e he hfe
         exact hinj e.1 (List.of_mem_zip he).1 d (List.of_mem_zip hdk).1 hfe
 
-end Glotaran.C03
 
+/-! ### the same for the own-order layout (`linkedResultsOwn`, what the C03 driver executes) -/
+
+theorem linkedResultsOwn_eq (mi : ModelItems) (g : Group) :
+    linkedResultsOwn mi g =
+      match alignAxes (g.datasets.map (·.globalAxis)) g.tol g.method, linkedProblems mi g with
+      | some aligned, some (axis, ps) =>
+        match ps.mapM (fun p => (solveLS g.solver p.reduced.m p.data).map (fun cr => (p, cr))) with
+        | none => none
+        | some sols => some ((g.datasets.zip aligned).map (linkedOneOwn mi (g.datasets.zip aligned) axis sols))
+      | _, _ => none := rfl
+
+theorem linkedOneOwn_rename (mi : ModelItems) (f : String → String) (da : List (Dataset × List Rat)) (axis : List Rat)
+    (sols : List (IndexProblem × (Vec × Vec))) (d : Dataset) (k : List Rat)
+    (hinj : ∀ e ∈ da, f e.1.label = f d.label → e.1.label = d.label) :
+    linkedOneOwn mi (da.map (Prod.map (renameDs f) id)) axis sols (renameDs f d, k) =
+      relabel f (linkedOneOwn mi da axis sols (d, k)) := by
+  have htw : (da.map (Prod.map (renameDs f) id)).takeWhile (fun e => e.1.label != f d.label) =
+      (da.takeWhile (fun e => e.1.label != d.label)).map (Prod.map (renameDs f) id) := by
+    rw [List.takeWhile_map]
+    congr 1
+    apply takeWhile_congr_mem
+    intro e he
+    simp only [Function.comp_def, Prod.map, renameDs_label]
+    by_cases h : e.1.label = d.label
+    · simp [h]
+    · have : f e.1.label ≠ f d.label := fun hh => h (hinj e he hh)
+      rw [bne_iff_ne.mpr this, bne_iff_ne.mpr h]
+  unfold linkedOneOwn
+  simp only [renameDs_label, renameDs_mcs, renameDs_nModel, htw, List.filter_map, List.map_map,
+    Function.comp_def, Prod.map, id, finish_rename]
+
+theorem linkedResultsOwn_rename (mi : ModelItems) (g : Group) (f : String → String)
+    (hinj : ∀ d1 ∈ g.datasets, ∀ d2 ∈ g.datasets, f d1.label = f d2.label → d1.label = d2.label) :
+    linkedResultsOwn mi (renameGroup f g) = (linkedResultsOwn mi g).map (List.map (relabel f)) := by
+  rw [linkedResultsOwn_eq, linkedResultsOwn_eq, linkedProblems_rename]
+  have ha : (renameGroup f g).datasets.map (·.globalAxis) = g.datasets.map (·.globalAxis) := by
+    simp [renameGroup, Function.comp_def]
+  rw [ha]
+  show (match alignAxes (g.datasets.map (·.globalAxis)) g.tol g.method, linkedProblems mi g with
+        | some aligned, some (axis, ps) =>
+          match ps.mapM (fun (p : IndexProblem) => (solveLS g.solver p.reduced.m p.data).map (fun cr => (p, cr))) with
+          | none => none
+          | some sols => some (((g.datasets.map (renameDs f)).zip aligned).map
+              (linkedOneOwn mi ((g.datasets.map (renameDs f)).zip aligned) axis sols))
+        | _, _ => none) = _
+  cases alignAxes (g.datasets.map (·.globalAxis)) g.tol g.method with
+  | none => rfl
+  | some aligned =>
+    cases linkedProblems mi g with
+    | none => rfl
+    | some ap =>
+      obtain ⟨axis, ps⟩ := ap
+      simp only
+      cases ps.mapM (fun (p : IndexProblem) => (solveLS g.solver p.reduced.m p.data).map (fun cr => (p, cr))) with
+      | none => rfl
+      | some sols =>
+        simp only [Option.map_some, Option.some.injEq]
+        rw [List.zip_map_left, List.map_map, List.map_map]
+        apply List.map_congr_left
+        intro dk hdk
+        obtain ⟨d, k⟩ := dk
+        simp only [Function.comp_def, Prod.map, id]
+        apply linkedOneOwn_rename
+        intro e he hfe
+        exact hinj e.1 (List.of_mem_zip he).1 d (List.of_mem_zip hdk).1 hfe
+
+end Glotaran.C03
